@@ -12,4 +12,4 @@ core.build_impl("/repo", need_binary=True)
 core.dump_tables("/repo")
 PY
 cd lean
-lake build Calc calcdriver
+lake build Calc calcdriver $(python3 -c "import json;r=json.load(open('READY.json'));print(' '.join('Calc.Props.%s Calc.Audit.%s'%(m,m) for ms in r.values() for m in ms))")
